@@ -14,6 +14,7 @@ fn main() {
             // run one input, print its violations; dying here is the signal the caller looks for
             vcheck::sim::init_epoch();
             vcheck::sim::install_panic_hook();
+            vcheck::sim::install_watchdog(std::env::var("VERIF_CASE_LIMIT_S").ok().and_then(|s| s.parse().ok()).unwrap_or(60));
             let input = vcheck::runner::read_json(std::path::Path::new(&args[2])).expect("input");
             let input = if input.get("input").is_some() { input.get("input").cloned().unwrap() } else { input };
             match vcheck::props::replay_input(&args[1], &input) {
